@@ -133,7 +133,7 @@ void ObjectPool<T, Ts...>::reset(unsigned workers,
         workers = workers_needed;
     }
     LIBFIVE_VERIF_POINT(verif::SITE_RESET_POOL, workers,
-            allocated_blocks.size() + fresh_blocks.size(), this);
+            (int64_t(allocated_blocks.size()) << 32) | int64_t(fresh_blocks.size()), this);
 
     std::vector<std::future<void>> futures;
     futures.resize(workers);
